@@ -91,8 +91,17 @@ func (P) Monitor(c *hx.CaseRun) []hx.Failure {
 				k = len(table) - 1
 			}
 			eh := argEh(toks)
-			if len(p) > walMaxMsgSize {
-				oversize = true
+			if ans == "err-toobig" {
+				// the encoder refused the record: nothing was written.  It must not refuse what the reactor accepts from a
+				// peer plus the stated wrapper bound (the node's Write panics on an encoder error)
+				if len(p) <= reactorBound()+wrapperBound {
+					fail("encoder_accepts_reactor_max", "wal-oversize-record-unreadable", "consensus/wal.go:Encode",
+						fmt.Sprintf("the encoder refused a payload of %d bytes; the reactor accepts peer messages of %d bytes and the wrapper adds at most %d", len(p), reactorBound(), wrapperBound))
+				}
+				continue
+			}
+			if len(p) > 1024*1024 {
+				oversize = true // large enough to meet the decoder's bound: an unreadable flushed log is then classified as the oversize defect
 			}
 			off += int64(8 + len(p))
 			W = append(W, wrec{k, eh, off})
